@@ -92,6 +92,12 @@ class PageDatabase:
             self._parsed[key] = value
             self.__generation += 1
 
+    def invalidate(self) -> None:
+        """Something the postprocessor reads besides the parsed pages has changed: its last
+        result no longer stands."""
+        with self._lock:
+            self.__generation += 1
+
     def keys_from_source(self, source: FileId) -> List[FileId]:
         """Return the keys of the raw parsed pages which were generated from the given source file."""
         with self._lock:
